@@ -1086,7 +1086,7 @@ func (e *Engine) callFnEnv(fn *ssa.Function, args []value, env []value) value {
 	fr.block = fn.Blocks[0]
 	defer func() {
 		if r := recover(); r != nil {
-			if _, ok := r.(pathEnd); !ok {
+			if _, ok := r.(pathEnd); !ok && os.Getenv("GOSYM_DEBUG") != "" {
 				fmt.Fprintf(os.Stderr, "  in %s block %d\n", fn, func() int {
 					if fr.block != nil {
 						return fr.block.Index
